@@ -440,7 +440,13 @@ func badValue(t *rapid.T, td *gen.TD) *gen.Tree {
 	case "dur":
 		return pick(gen.Str("zz"), gen.Str("5 parsecs"), obj)
 	case "regexp":
-		return pick(gen.Str("("), gen.Str("[a")) // an object is accepted for a regexp (it yields a zero Regexp): reported, not generated
+		// An object (or list) setting for a *regexp.Regexp is accepted by the library without error (a nil field
+		// becomes a pointer to the zero Regexp, a pre-filled one is left alone). That is a conversion matter
+		// (C03), reported separately; the class is not generated here unless C13_REGEXP_OBJECT is set.
+		if os.Getenv("C13_REGEXP_OBJECT") != "" {
+			return pick(gen.Str("("), gen.Str("[a"), obj)
+		}
+		return pick(gen.Str("("), gen.Str("[a"))
 	case "unpstr":
 		return gen.Str("bad")
 	}
